@@ -1418,10 +1418,22 @@ func (s *BgpServer) processRTCMembership(peer *peer, path *table.Path) {
 	fs := peerNonRTCFamilies(peer)
 	s.rtcVPNCandidates(peer, path.IsWithdraw, rt, fs, func(paths []*table.Path, filtered []*table.Path) {
 		if path.IsWithdraw {
-			// Skips filtering: paths are already scoped to this RT and withdrawals
-			// do not need path attributes.
-			peer.updateRoutes(filtered...)
-			sendfsmOutgoingMsg(peer, filtered)
+			// The candidates are what the peer may hold because of this RT. It
+			// keeps those it is still entitled to through another membership
+			// (a second RT of the route, or the default membership); the rest is
+			// withdrawn. Withdrawals do not need path attributes, so the export
+			// filters are skipped.
+			withdrawn := make([]*table.Path, 0, len(filtered))
+			for _, p := range filtered {
+				if peer.interestedIn(p) {
+					continue
+				}
+				withdrawn = append(withdrawn, p)
+			}
+			if len(withdrawn) > 0 {
+				peer.updateRoutes(withdrawn...)
+				sendfsmOutgoingMsg(peer, withdrawn)
+			}
 			return
 		}
 		if peer.getRtcEORWait() {
